@@ -22,7 +22,8 @@ def simplify_specifiers(spec):
     """Try to simplify a SpecifierSet by combining redundant specifiers."""
 
     def key(s):
-        return (s.version, 1 if s.operator in ['>=', '<'] else 2)
+        # Compare as versions, not as strings: '1.10' is later than '1.9'.
+        return (Version(s.version), 1 if s.operator in ['>=', '<'] else 2)
 
     def in_bounds(v, lo, hi):
         if lo and v not in lo:
